@@ -23,7 +23,10 @@ ENGINE = {'name': 'tls',
          'pre_shared_key not last, trailing bytes, short vectors, malformed PSK/key_share/status_request/renegotiation_info, non-empty SCT/early_data); every hello is given to a crypto/tls server (GetConfigForClient), to '
          'parseRawClientHello and MatchTLS.Match, and to the Coq parser; every proper prefix of 25 records (sampled prefixes of 35 more) and all '
          '255 other record types go through MatchTLS.Match; every sixth hello is additionally split into two handshake records at a generated '
-         'point (handshake header, after the session id, near the end, anywhere) and given to the server and the matcher; a case is non-trivial when the hello carries server_name, ALPN or supported_versions; '
+         'point (handshake header, after the session id, near the end, anywhere) and given to the server and the matcher; every fourth hello is '
+         'matched a second time on a connection lineage (shared variable table and replacer, as Connection.Wrap gives it) whose outer stream '
+         'carried another hello, and followed by a non-TLS inner stream; 6 (thorough 24) TLS-in-TLS / plaintext-in-TLS sessions run through a '
+         'compiled RouteList [tls sni outer -> terminate (tls.Server over cx, cx.Wrap)] + alpn/sni/bare tls routes with a crypto/tls client over net.Pipe; a case is non-trivial when the hello carries server_name, ALPN or supported_versions; '
          'distinct = distinct (bytes, answer) terms',
  'trusted_base': ['crypto/tls (Go 1.23 standard library) as the reference server and as the client that produces the hellos',
                   'the harness re-serialiser for mutated hellos (checked to reproduce every captured record byte for byte before mutation)',
@@ -31,7 +34,8 @@ ENGINE = {'name': 'tls',
  'modelled': ['modules/l4tls/parsehello.go: parseRawClientHello with every extension case and its return-what-was-parsed failure mode, '
               'supportedVersionsFromMax; x/crypto/cryptobyte String.read/Skip/ReadUintN/ReadUintNLengthPrefixed/Empty',
               'modules/l4tls/matcher.go: MatchTLS.Match framing (record type, 16-bit length, exact reads), placeholders l4.tls.server_name and '
-              'l4.tls.version, conjunction of handshake sub-matchers',
+              'l4.tls.version, conjunction of handshake sub-matchers; successive evaluations on one connection lineage (tls_rematch: no memo, '
+              'placeholders overwritten by a later parsed hello)',
               'modules/l4tls/alpn_matcher.go: MatchALPN.Match for configured values without placeholders',
               'not modelled: crypto/tls itself (agreement is differential), caddytls sub-matchers other than alpn, Caddyfile parsing (C15); '
               'FillTLSClientConfig and the replacer rendering of {l4.tls.server_name}|{l4.tls.version} are compared by the oracle only'],
